@@ -272,6 +272,54 @@ def is_input_root(root):
     return isinstance(root, str)
 
 
+class Ptr:
+    """pointer VALUE (cursor): element number `off` (Poly) of the array object `base`; off None = the object
+    `base` itself (address of a non-array object: no arithmetic).  A pointer variable is a location whose stored
+    value is a Ptr; `*p`, `p[i]`, `p->m`, `++p`, `p + n`, `p - q`, `p != q` are decided on (base, off), so that a
+    cursor loop `for(p = &a[k]; ...; ++p) *p = v` writes exactly the cells the index loop `a[k++] = v` writes.
+    Pointers the evaluator did not see being formed (parameters, members, results of unmodelled calls) keep the
+    older convention: the location stands for the array it points to."""
+    __slots__ = ("base", "off")
+
+    def __init__(self, base, off):
+        self.base, self.off = base, off
+
+    def target(self, extra=None):
+        if self.off is None:
+            if extra is not None and not (extra.const_value() == 0):
+                raise NotClosedForm("arithmetic on a pointer to the single object %s" % loc_name(self.base))
+            return self.base
+        o = self.off if extra is None else self.off + extra
+        c = o.const_value()
+        if c is not None:
+            if c.denominator != 1:
+                raise NotClosedForm("non-integer pointer offset %s" % c)
+            return self.base.child(int(c))
+        return self.base.child("#" + str(o))
+
+    def shift(self, d):
+        if self.off is None:
+            raise NotClosedForm("arithmetic on a pointer to the single object %s" % loc_name(self.base))
+        return Ptr(self.base, self.off + d)
+
+    def __eq__(self, o):
+        return isinstance(o, Ptr) and self.base.key() == o.base.key() and self.off == o.off
+
+    def __hash__(self):
+        return hash((self.base.key(), self.off))
+
+    def __repr__(self):
+        return "&" + loc_name(self.target())
+
+
+def is_ptr_type(ty):
+    t = ty.rstrip()
+    for q in ("const", "__restrict", "volatile"):
+        if t.endswith(q):
+            t = t[:-len(q)].rstrip()
+    return t.endswith("*")
+
+
 class Store:
     """(root, path) -> value, indexed by root so that aggregate operations only scan one object"""
 
@@ -502,6 +550,60 @@ class SymEx:
             return None
         return self.by_decl.get((id(fn.facts), d))
 
+    # --- pointer cursors ----------------------------------------------------------------------------
+    def ptr_of(self, x):
+        """the pointer value denoted by x (a Ptr, or a location holding one), else None"""
+        if isinstance(x, Ptr):
+            return x
+        if isinstance(x, Loc):
+            v = self.store.get(x.key())
+            if isinstance(v, Ptr):
+                return v
+        return None
+
+    def deref(self, x):
+        """object a pointer expression points to; locations that hold no pointer value stand for their pointee"""
+        p = self.ptr_of(x)
+        return p.target() if p is not None else x
+
+    @staticmethod
+    def _strip_casts(n):
+        while isinstance(n, dict) and n.get("k") == "Cast" and n.get("e") is not None:
+            n = n["e"]
+        return n
+
+    def as_ptr(self, x, node):
+        """value to store into a pointer variable that is initialised / assigned from x (syntax: node)"""
+        p = self.ptr_of(x)
+        if p is not None:
+            return p
+        if isinstance(x, Loc):
+            n0 = self._strip_casts(node)
+            if isinstance(n0, dict) and n0.get("k") == "Un" and n0.get("op") == "&":
+                return Ptr(x, None)
+            return Ptr(x, Poly.const(0))      # array decay / pointer-valued accessor: first element of the array x stands for
+        return x
+
+    def ptr_arith(self, op, a0, b0, pa, pb, n):
+        """pointer +/- integer, pointer difference and comparison within one array"""
+        def as_p(x, other):
+            p = self.ptr_of(x)
+            if p is None and isinstance(x, Loc) and other is not None and other.base.key() == x.key():
+                return Ptr(x, Poly.const(0))
+            return p
+        if op in ("+", "-") and pa is not None and pb is None and not (isinstance(b0, Loc) and b0.key() == pa.base.key()):
+            d = self.num(b0)
+            return pa.shift(d if op == "+" else -d)
+        if op == "+" and pb is not None and pa is None:
+            return pb.shift(self.num(a0))
+        qa, qb = as_p(a0, pb), as_p(b0, pa)
+        if qa is not None and qb is not None and qa.base.key() == qb.base.key() and qa.off is not None and qb.off is not None:
+            if op == "-":
+                return qa.off - qb.off
+            if op in ("<", ">", "<=", ">=", "==", "!="):
+                return self.arith(op, qa.off, qb.off, "bool", n, None)
+        raise NotClosedForm("pointer expression %s %s %s not within one array (line %s)" % (a0, op, b0, n.get("l")))
+
     # --- entry ------------------------------------------------------------------------------------
     def run(self, fn, args=None, this="this", prefix="P"):
         """evaluate fn with input roots; args: list of Loc / values per parameter (default: roots
@@ -572,16 +674,99 @@ class SymEx:
                     break
                 except _Continue:
                     pass
+        elif k == "Do":
+            while True:
+                self.tick()
+                try:
+                    self.exec(n["body"], env, fn)
+                except _Break:
+                    break
+                except _Continue:
+                    pass
+                if not self.truth(self.eval(n["c"], env, fn)):
+                    break
+        elif k == "Switch":
+            self.exec_switch(n, env, fn)
+        elif k == "ForRange":
+            self.exec_for_range(n, env, fn)
+        elif k in ("Case", "Default"):
+            # a label reached by falling through from the previous case
+            self.exec(n.get("s"), env, fn)
+        elif k == "Null_":
+            return
         elif k == "Break":
             raise _Break()
         elif k == "Continue":
             raise _Continue()
         elif k == "Return":
             raise _Return(self.eval(n["e"], env, fn) if n.get("e") is not None else None)
-        elif k in ("Switch", "Do", "Try", "ForRange", "OMP", "Throw"):
+        elif k in ("Try", "OMP", "Throw"):
             raise NotClosedForm("control construct %s at %s:%s" % (k, fn.file, n.get("l")))
         else:
             self.eval(n, env, fn)
+
+    def exec_switch(self, n, env, fn):
+        """switch on a constant selector = the if-chain over its case labels (fall-through and break honoured)"""
+        if n.get("init"):
+            self.exec(n["init"], env, fn)
+        sel = self.num(self.eval(n["c"], env, fn)).const_value()
+        if sel is None:
+            raise NotClosedForm("switch selector is not a constant (%s:%s)" % (fn.file, n.get("l")))
+        body = n.get("body") or {}
+        stmts = (body.get("s") or []) if body.get("k") == "Block" else [body]
+
+        def labels(st):
+            vals = []
+            while isinstance(st, dict) and st.get("k") in ("Case", "Default"):
+                vals.append("default" if st["k"] == "Default" else self.num(self.eval(st["v"], env, fn)).const_value())
+                st = st.get("s")
+            return vals, st
+        start = dflt = None
+        for i, st in enumerate(stmts):
+            vals, _ = labels(st)
+            if sel in [v for v in vals if v != "default"]:
+                start = i
+                break
+            if "default" in vals and dflt is None:
+                dflt = i
+        if start is None:
+            start = dflt
+        if start is None:
+            return
+        try:
+            for st in stmts[start:]:
+                _, inner = labels(st)
+                self.exec(inner, env, fn)
+        except _Break:
+            pass
+
+    def exec_for_range(self, n, env, fn):
+        """range-for over a built-in array of constant extent = the index loop over its elements"""
+        rng = self.eval(n["range"], env, fn)
+        ty = fn.ntype(n["range"]) or ""
+        m = re.search(r"\[(\d+)\]", ty)
+        if not isinstance(rng, Loc) or not m or "<" in ty.split("[")[0]:
+            raise NotClosedForm("range-for over %s, which is not a built-in array of constant extent (%s:%s)" % (ty or "?", fn.file, n.get("l")))
+        var = n.get("var") or {}
+        vty = fn.type(var["t"]) if var.get("t") is not None else ""
+        for i in range(int(m.group(1))):
+            self.tick()
+            elem = rng.child(i)
+            if var.get("ref") or vty.rstrip().endswith("&"):
+                env[var["d"]] = elem
+            else:
+                self.frames += 1
+                loc = Loc(("L", var.get("n"), self.frames))
+                if self.frame_roots:
+                    self.frame_roots[-1].append(loc.root)
+                self.copy_agg(loc, elem, n.get("l"))
+                env[var["d"]] = loc
+            try:
+                self.exec(n["body"], env, fn)
+            except _Break:
+                break
+            except _Continue:
+                pass
 
     def declare(self, v, env, fn):
         ty = fn.type(v["t"])
@@ -610,9 +795,19 @@ class SymEx:
         if init.get("k") == "InitList" and isinstance(x, list):
             if len(x) == 1 and not ty.rstrip().endswith("]"):
                 x = x[0]      # `T v{expr};`
+                init = (init.get("a") or [init])[0]
             else:
                 self._store_list(loc, x)
                 return
+        if is_ptr_type(ty):
+            # a pointer cursor: the variable holds (array, offset); see class Ptr
+            pv = self.as_ptr(x, init)
+            if isinstance(pv, Ptr):
+                self.store[loc.key()] = pv
+                return
+        if isinstance(x, Ptr):
+            self.store[loc.key()] = x
+            return
         if isinstance(x, Loc):
             # scalar or aggregate copy alike: written cells are snapshotted, unwritten input cells linked
             self.copy_agg(loc, x, v.get("l"))
@@ -644,6 +839,8 @@ class SymEx:
             return Poly.const(int(n["v"]))
         if k == "Str":
             return n["v"]
+        if k == "Null":
+            return Poly.const(0)
         if k == "This":
             if "this" not in env:
                 raise NotClosedForm("'this' without object")
@@ -660,6 +857,8 @@ class SymEx:
                 return Poly.const(int(n["v"]))
             b = n.get("b")
             base = self.eval(b, env, fn) if b is not None else env.get("this")
+            if b is not None:
+                base = self.deref(base)
             if not isinstance(base, Loc):
                 raise NotClosedForm("member %s of a non-object (line %s)" % (n.get("n"), n.get("l")))
             if n.get("field") and self.TRANSPARENT.match(n.get("qn", "")):
@@ -667,7 +866,15 @@ class SymEx:
             return base.child(n["n"])
         if k == "Index":
             base = self.eval(n["b"], env, fn)
+            pb = self.ptr_of(base)
+            if pb is not None:
+                return pb.target(self.num(self.eval(n["idx"], env, fn)))
             if not isinstance(base, Loc):
+                # `i[a]` / subscript with the pointer on the right
+                other = self.eval(n["idx"], env, fn)
+                po = self.ptr_of(other)
+                if po is not None:
+                    return po.target(self.num(base))
                 raise NotClosedForm("subscript of a non-object (line %s)" % n.get("l"))
             return base.child(self.index_elem(self.eval(n["idx"], env, fn)))
         if k == "Cast":
@@ -675,6 +882,8 @@ class SymEx:
             x = self.eval(n["e"], env, fn)
             if to == "void":
                 return None
+            if isinstance(x, Ptr):
+                return x
             if isinstance(x, Loc) and x.key() not in self.store and not is_int_type(to):
                 return x
             v = self.rv(x)
@@ -694,6 +903,18 @@ class SymEx:
                 raise NotClosedForm("assignment to a non-lvalue (line %s)" % n.get("l"))
             r = self.eval(n["rhs"], env, fn)
             ty = fn.ntype(n)
+            pl = self.ptr_of(lv)
+            if pl is not None or (is_ptr_type(ty or "") and (self.ptr_of(r) is not None or self._is_addr_or_array(n["rhs"], r, fn))):
+                # assignment to a pointer cursor
+                if n["op"] == "=":
+                    nv = self.as_ptr(r, n["rhs"])
+                elif n["op"] in ("+=", "-=") and pl is not None:
+                    d = self.num(r)
+                    nv = pl.shift(d if n["op"] == "+=" else -d)
+                else:
+                    raise NotClosedForm("pointer assignment %s (line %s)" % (n["op"], n.get("l")))
+                self.write(lv, nv, n.get("l"))
+                return lv
             # a built-in assignment is always scalar (class types assign through operator=)
             rv = self.rv(r)
             if n["op"] != "=":
@@ -708,6 +929,9 @@ class SymEx:
             return self.construct(n, env, fn, None)
         if k == "InitList":
             return [self.eval(a, env, fn) for a in n.get("a", [])]
+        if k == "Lambda":
+            # the closure object; its call operator is inlined at the call with the defining frame's variables visible
+            return self.new_temp("LAMBDA")
         if k == "SizeOf" and "v" in n:
             return Poly.const(int(n["v"]))
         if k == "ValueInit":
@@ -729,11 +953,28 @@ class SymEx:
             lv = self.eval(n["e"], env, fn)
             if not isinstance(lv, Loc):
                 raise NotClosedForm("inc/dec of a non-lvalue")
+            pl = self.ptr_of(lv)
+            if pl is not None:
+                self.write(lv, pl.shift(Poly.const(1 if op == "++" else -1)), n.get("l"))
+                return pl if n.get("post") else lv
             old = self.num(lv)
             self.write(lv, old + (1 if op == "++" else -1), n.get("l"))
             return old if n.get("post") else lv
+        if op == "&":
+            e0 = self._strip_casts(n["e"])
+            if isinstance(e0, dict) and e0.get("k") == "Index":
+                # address of an array element: a cursor into that array
+                base = self.eval(e0["b"], env, fn)
+                idx = self.num(self.eval(e0["idx"], env, fn))
+                pb = self.ptr_of(base)
+                if pb is not None:
+                    return pb.shift(idx)
+                if isinstance(base, Loc):
+                    return Ptr(base, idx)
         x = self.eval(n["e"], env, fn)
-        if op in ("*", "&"):
+        if op == "*":
+            return self.deref(x)
+        if op == "&":
             return x
         if op == "-":
             return -self.num(x)
@@ -754,9 +995,30 @@ class SymEx:
         if op == ",":
             self.eval(n["lhs"], env, fn)
             return self.eval(n["rhs"], env, fn)
-        a = self.num(self.eval(n["lhs"], env, fn))
-        b = self.num(self.eval(n["rhs"], env, fn))
+        a0 = self.eval(n["lhs"], env, fn)
+        b0 = self.eval(n["rhs"], env, fn)
+        pa, pb = self.ptr_of(a0), self.ptr_of(b0)
+        if pa is None and pb is None and op in ("+", "-") and is_ptr_type(fn.ntype(n) or ""):
+            # arithmetic on a decayed array / a pointer the evaluator did not see being formed
+            if isinstance(a0, Loc) and self._is_addr_or_array(n["lhs"], a0, fn):
+                pa = Ptr(a0, Poly.const(0))
+            elif op == "+" and isinstance(b0, Loc) and self._is_addr_or_array(n["rhs"], b0, fn):
+                pb = Ptr(b0, Poly.const(0))
+        if pa is not None or pb is not None:
+            return self.ptr_arith(op, a0, b0, pa, pb, n)
+        a = self.num(a0)
+        b = self.num(b0)
         return self.arith(op, a, b, fn.ntype(n), n, fn)
+
+    def _is_addr_or_array(self, node, x, fn):
+        """x (value of node) is a location used as a pointer: array / pointer typed expression or &object"""
+        if not isinstance(x, Loc):
+            return False
+        n0 = self._strip_casts(node)
+        if isinstance(n0, dict) and n0.get("k") == "Un" and n0.get("op") == "&":
+            return True
+        t = (fn.ntype(n0) or "").rstrip() if isinstance(n0, dict) and fn is not None else ""
+        return is_ptr_type(t) or t.endswith("]")
 
     def arith(self, op, a, b, ty, n, fn):
         if op == "+":
@@ -824,11 +1086,17 @@ class SymEx:
             return Poly.const(abs(c))
         if callee in ("FEAT::assertion",):
             return None
+        if k == "Call" and callee.startswith("std::"):
+            r = self.std_algorithm(strip_targs(callee), n, env, fn)
+            if r is not NotImplemented:
+                return r
         args_n = list(n.get("a", []))
         this_loc = None
         if k == "MCall":
             o = n.get("obj")
             ov = self.eval(o, env, fn) if o is not None else env.get("this")
+            if o is not None and n.get("arrow"):
+                ov = self.deref(ov)
             if not isinstance(ov, Loc):
                 raise NotClosedForm("method %s called on a non-object (line %s)" % (callee, n.get("l")))
             this_loc = ov
@@ -851,7 +1119,9 @@ class SymEx:
                     ov = self.eval(args_n[0], env, fn)
                     this_loc = ov if isinstance(ov, Loc) else None
                     args_n = args_n[1:]
-            args = [self.eval(a, env, fn) for a in args_n]
+            # calls that are not inlined see the pointee of a pointer cursor (the convention for pointers whose
+            # formation was not observed)
+            args = [self.deref(self.eval(a, env, fn)) for a in args_n]
             # implicit (body-less) copy assignment of aggregates
             if callee.endswith("::operator=") and this_loc is not None and len(args) == 1 and isinstance(args[0], Loc):
                 self.copy_agg(this_loc, args[0], n.get("l"))
@@ -863,11 +1133,97 @@ class SymEx:
             raise NotClosedForm("callee %s has no body in the fact base and is not modelled (%s:%s)" % (callee, fn.file, n.get("l")))
         return self.inline(target, this_loc, args_n, env, fn, n)
 
+    def _range(self, first, last, what):
+        """[first, last) as (array Loc, lo, hi) with constant integer offsets"""
+        pf, pl = self.ptr_of(first), self.ptr_of(last)
+        if pf is None or pl is None or pf.base.key() != pl.base.key() or pf.off is None or pl.off is None:
+            raise NotClosedForm("%s: the range is not delimited by two cursors into one array" % what)
+        lo, hi = pf.off.const_value(), pl.off.const_value()
+        if lo is None or hi is None or lo.denominator != 1 or hi.denominator != 1:
+            raise NotClosedForm("%s over a range of non-constant extent [%s, %s)" % (what, pf.off, pl.off))
+        return pf.base, int(lo), int(hi)
+
+    def _cursor(self, x, node, fn, what):
+        p = self.ptr_of(x)
+        if p is None and isinstance(x, Loc) and self._is_addr_or_array(node, x, fn):
+            p = Ptr(x, Poly.const(0))
+        if p is None or p.off is None:
+            raise NotClosedForm("%s: operand is not a cursor into an array" % what)
+        return p
+
+    def std_algorithm(self, name, n, env, fn):
+        """the standard algorithms on pointer ranges of constant extent as the loops they stand for
+        (fill, fill_n, copy, copy_n, copy_backward, iota, swap, min, max); NotImplemented: not one of them"""
+        a = n.get("a", [])
+        if name in ("std::min", "std::max") and len(a) == 2:
+            x, y = self.num(self.eval(a[0], env, fn)), self.num(self.eval(a[1], env, fn))
+            d = (x - y).const_value()
+            if d is None:
+                raise NotClosedForm("%s of the non-constant values %s, %s" % (name, x, y))
+            return (x if d <= 0 else y) if name == "std::min" else (x if d >= 0 else y)
+        if name == "std::swap" and len(a) == 2:
+            x, y = self.eval(a[0], env, fn), self.eval(a[1], env, fn)
+            if isinstance(x, Loc) and isinstance(y, Loc) and x.key() in self.store and y.key() in self.store:
+                vx, vy = self.store[x.key()], self.store[y.key()]
+                self.write(x, vy, n.get("l"))
+                self.write(y, vx, n.get("l"))
+                return None
+            return NotImplemented
+        if name not in ("std::fill", "std::fill_n", "std::copy", "std::copy_n", "std::copy_backward", "std::iota") or len(a) != 3:
+            return NotImplemented
+        v = [self.eval(x, env, fn) for x in a]
+        if not any(self.ptr_of(x) is not None for x in v):
+            return NotImplemented     # iterators of a class type: left to the caller's model
+        line = n.get("l")
+        if name in ("std::fill", "std::iota"):
+            base, lo, hi = self._range(self._cursor(v[0], a[0], fn, name), self._cursor(v[1], a[1], fn, name), name)
+            val = self.rv(v[2])
+            for i in range(lo, hi):
+                self.tick()
+                self.write(base.child(i), val, line)
+                if name == "std::iota":
+                    val = self.num(val) + 1
+            return None
+        if name == "std::fill_n":
+            p = self._cursor(v[0], a[0], fn, name)
+            cnt = self.num(v[1]).as_int()
+            val = self.rv(v[2])
+            for i in range(cnt):
+                self.write(p.target(Poly.const(i)), val, line)
+            return p.shift(Poly.const(cnt))
+        if name == "std::copy_n":
+            src = self._cursor(v[0], a[0], fn, name)
+            cnt = self.num(v[1]).as_int()
+            dst = self._cursor(v[2], a[2], fn, name)
+            vals = [self.rv(src.target(Poly.const(i))) for i in range(cnt)]
+            for i, x in enumerate(vals):
+                self.write(dst.target(Poly.const(i)), x, line)
+            return dst.shift(Poly.const(cnt))
+        base, lo, hi = self._range(self._cursor(v[0], a[0], fn, name), self._cursor(v[1], a[1], fn, name), name)
+        dst = self._cursor(v[2], a[2], fn, name)
+        vals = [self.rv(base.child(i)) for i in range(lo, hi)]
+        if name == "std::copy":
+            for i, x in enumerate(vals):
+                self.write(dst.target(Poly.const(i)), x, line)
+            return dst.shift(Poly.const(len(vals)))
+        for i, x in enumerate(vals):     # copy_backward: dst is the END of the destination
+            self.write(dst.target(Poly.const(i - len(vals))), x, line)
+        return dst.shift(Poly.const(-len(vals)))
+
     def bind_args(self, target, args_n, env, fn, new_env):
         for p, a in zip(target.params, args_n):
             pt = target.type(p["t"])
             x = self.eval(a, env, fn)
             if is_ref_type(pt):
+                if is_ptr_type(pt) and self.ptr_of(x) is not None:
+                    # by-value pointer parameter: a private copy of the cursor
+                    self.frames += 1
+                    loc = Loc(("A", p["n"], self.frames))
+                    if self.frame_roots:
+                        self.frame_roots[-1].append(loc.root)
+                    self.store[loc.key()] = self.ptr_of(x)
+                    new_env[p["d"]] = loc
+                    continue
                 if not isinstance(x, Loc):
                     t = self.new_temp("V")
                     if isinstance(x, list):
@@ -893,7 +1249,12 @@ class SymEx:
 
     def inline(self, target, this_loc, args_n, env, fn, n):
         new_env = {}
-        if this_loc is not None:
+        if "<lambda" in (target.qn or "") or "(lambda" in (target.qn or ""):
+            # call operator of a local lambda: captured variables are the variables of the defining frame (capture by
+            # copy is treated like capture by reference: exact as long as the captured variable is not changed between
+            # the definition of the lambda and its call), `this` is the enclosing object
+            new_env.update(env)
+        elif this_loc is not None:
             new_env["this"] = this_loc
         self.frame_roots.append([])
         try:
@@ -926,7 +1287,7 @@ class SymEx:
         args_n = n.get("a", [])
         callee = n.get("callee", "")
         if target is None:
-            args = [self.eval(a, env, fn) for a in args_n]
+            args = [self.deref(self.eval(a, env, fn)) for a in args_n]
             if len(args) == 1 and isinstance(args[0], Loc):
                 # implicit copy/move construction
                 self.copy_agg(loc, args[0], n.get("l"))
@@ -1082,16 +1443,22 @@ class AbsSymEx(SymEx):
         for vn in loopvar_nodes:
             lv = self.eval(vn, env, fn)
             if isinstance(lv, Loc):
+                pv = self.ptr_of(lv)
+                s = self.fresh(vn.get("n", "it"))
+                if pv is not None and pv.off is not None:
+                    # a pointer cursor advancing through one array = the index loop over its offset
+                    self.store[lv.key()] = Ptr(pv.base, Poly.sym(s))
+                    rec["vars"].append({"sym": s, "init": pv.off, "loc": lv, "array": pv.base, "dir": self._step_dir(n, vn.get("d"))})
+                    continue
                 try:
                     init = self.read(lv)
                 except NotClosedForm:
                     init = None
-                s = self.fresh(vn.get("n", "it"))
                 self.store[lv.key()] = Poly.sym(s)
-                rec["vars"].append({"sym": s, "init": init, "loc": lv})
+                rec["vars"].append({"sym": s, "init": init, "loc": lv, "dir": self._step_dir(n, vn.get("d"))})
         if cond is not None and cond.get("k") == "Bin":
             try:
-                rec["cond"] = (cond["op"], self.rv(self.eval(cond["lhs"], env, fn)), self.rv(self.eval(cond["rhs"], env, fn)))
+                rec["cond"] = self._norm_cond(cond["op"], self.rv(self.eval(cond["lhs"], env, fn)), self.rv(self.eval(cond["rhs"], env, fn)), rec)
             except NotClosedForm:
                 rec["cond"] = None
         self.loops.append(rec)
@@ -1102,6 +1469,50 @@ class AbsSymEx(SymEx):
             pass
         finally:
             self.loop_stack.pop()
+
+    @staticmethod
+    def _step_dir(n, d):
+        """+1 / -1 if every modification of variable d in the loop (increment clause, condition, body) is ++ / --
+        (or += / -= a positive literal), else None"""
+        dirs = set()
+        for part in (n.get("inc"), n.get("c"), n.get("body")):
+            for x in walk_nodes(part):
+                t = None
+                if x.get("k") == "Un" and x.get("op") in ("++", "--"):
+                    t, dr = x.get("e"), (1 if x["op"] == "++" else -1)
+                elif x.get("k") == "Assign":
+                    t = x.get("lhs")
+                    r = x.get("rhs") or {}
+                    dr = None
+                    if x.get("op") in ("+=", "-=") and r.get("k") == "Int" and int(r.get("v", 0)) > 0:
+                        dr = 1 if x["op"] == "+=" else -1
+                if t is not None and t.get("k") == "Ref" and t.get("d") == d:
+                    dirs.add(dr)
+        return dirs.pop() if len(dirs) == 1 else None
+
+    def _norm_cond(self, op, l, r, rec):
+        """loop condition in the normal form (op, loop variable side, bound side): cursors into one array are
+        compared by their offsets, the loop variable is brought to the left (`n > k` = `k < n`), and `k != n` of
+        an up-counting variable is the range test `k < n`"""
+        pl, pr = self.ptr_of(l), self.ptr_of(r)
+        if pl is not None or pr is not None:
+            if pl is None and isinstance(l, Loc) and l.key() == pr.base.key():
+                pl = Ptr(l, Poly.const(0))
+            if pr is None and isinstance(r, Loc) and r.key() == pl.base.key():
+                pr = Ptr(r, Poly.const(0))
+            if pl is None or pr is None or pl.base.key() != pr.base.key() or pl.off is None or pr.off is None:
+                return None
+            l, r = pl.off, pr.off
+        syms = {v["sym"]: v for v in rec["vars"]}
+
+        def mine(x):
+            return isinstance(x, Poly) and bool(x.symbols() & set(syms))
+        if not mine(l) and mine(r):
+            l, r = r, l
+            op = {"<": ">", ">": "<", "<=": ">=", ">=": "<=", "==": "==", "!=": "!="}.get(op, op)
+        if op == "!=" and isinstance(l, Poly) and l.single_symbol() in syms and syms[l.single_symbol()].get("dir") == 1:
+            op = "<"
+        return (op, l, r)
 
     @staticmethod
     def _loop_vars(n):
@@ -1168,7 +1579,8 @@ class AbsSymEx(SymEx):
                     self.eval(n["inc"], env, fn)
                 c = n.get("c") is None or self.truth(self.eval(n["c"], env, fn))
             return
-        if n is not None and n.get("k") == "While":
+        if n is not None and n.get("k") in ("While", "Do"):
+            # (a do-while whose condition is not a constant on entry is abstracted like the while loop: one arbitrary iteration)
             try:
                 c = self.truth(self.eval(n["c"], env, fn))
             except NotClosedForm:
@@ -1245,7 +1657,7 @@ class AbsSymEx(SymEx):
         if target is None:
             if loc is None:
                 loc = self.new_temp("T")
-            args = [self.eval(a, env, fn) for a in n.get("a", [])]
+            args = [self.deref(self.eval(a, env, fn)) for a in n.get("a", [])]
             # implicit (body-less) copy construction keeps its aggregate semantics
             if len(args) == 1 and isinstance(args[0], Loc) and SymEx.lookup(self, n, fn) is None and (n.get("copy") or n.get("pn") == [""]):
                 self.copy_agg(loc, args[0], n.get("l"))
@@ -1255,103 +1667,247 @@ class AbsSymEx(SymEx):
 
 
 # -------------------------------------------------------------------------------------------------
-# loop-free accept/reject predicates (engine E13 on top of the symbolic evaluator)
+# accept/reject predicates (engine E13 on top of the symbolic evaluator)
 # -------------------------------------------------------------------------------------------------
 
-class PredEx(SymEx):
-    """Extracts the accepted set of a bool predicate of the shape
-        [straight-line arithmetic]  if(C1) return false; ...  if(Cn) return false;  return E;
-    (constant-bound loops unrolled) as a conjunction of atoms  L > 0 / L >= 0  with L a polynomial in the
-    inputs.  Anything else (early `return true`, disjunctive accept sets, data dependent loops) is refused."""
+class BoolF:
+    """symbolic truth value: a formula  ("const", b) | ("atom", strict, Poly)  meaning Poly > 0 / >= 0 |
+    ("and"|"or", a, b) | ("not", a)"""
+    __slots__ = ("f",)
 
-    def __init__(self, facts_list, opaque=None):
+    def __init__(self, f):
+        self.f = f
+
+    def __repr__(self):
+        return "BoolF%r" % (self.f,)
+
+
+class _PathEx(SymEx):
+    """one execution path of a predicate: comparisons of input data yield formulas (BoolF) instead of being refused;
+    wherever the control flow needs the truth of a formula (if / ?: / loop conditions, at any inlining depth) the path
+    takes the next decision of its oracle and records the assumption."""
+
+    def __init__(self, facts_list, opaque, decisions):
         super().__init__(facts_list, opaque=opaque)
-        self.constraints = []   # boolean formulas that must hold for `true` to be returned
-        self.depth = 0          # the predicate statements are recognised in the entry function only
+        self.decisions = list(decisions)
+        self.taken = []
+        self.path = []
+        self.abs_args = {}
 
-    def inline(self, target, this_loc, args_n, env, fn, n):
-        self.depth += 1
-        try:
-            return super().inline(target, this_loc, args_n, env, fn, n)
-        finally:
-            self.depth -= 1
-
-    def construct(self, n, env, fn, loc):
-        self.depth += 1
-        try:
-            return super().construct(n, env, fn, loc)
-        finally:
-            self.depth -= 1
-
-    # boolean formulas: ("const", b) | ("atom", strict, Poly)  meaning Poly > 0 / >= 0 | ("and"|"or", a, b) | ("not", a)
-    def formula(self, n, env, fn):
-        k = n.get("k")
-        if k == "Bool":
-            return ("const", bool(n["v"]))
-        if k == "Un" and n.get("op") == "!":
-            return ("not", self.formula(n["e"], env, fn))
-        if k == "Bin" and n["op"] in ("&&", "||"):
-            return ("and" if n["op"] == "&&" else "or", self.formula(n["lhs"], env, fn), self.formula(n["rhs"], env, fn))
-        if k == "Bin" and n["op"] in ("<", "<=", ">", ">=", "==", "!="):
-            a = self.num(self.eval(n["lhs"], env, fn))
-            b = self.num(self.eval(n["rhs"], env, fn))
-            d = (b - a)
-            c = d.const_value()
-            op = n["op"]
+    # --- formulas -------------------------------------------------------------------------------------
+    def as_formula(self, v):
+        v = self.rv(v)
+        if isinstance(v, BoolF):
+            return v.f
+        if isinstance(v, bool):
+            return ("const", v)
+        if isinstance(v, Poly):
+            c = v.const_value()
             if c is not None:
-                return ("const", {"<": c > 0, "<=": c >= 0, ">": c < 0, ">=": c <= 0, "==": c == 0, "!=": c != 0}[op])
-            if op == "<":
-                return ("atom", True, d)
-            if op == "<=":
-                return ("atom", False, d)
-            if op == ">":
-                return ("atom", True, -d)
-            if op == ">=":
-                return ("atom", False, -d)
-            if op == "==":
-                return ("and", ("atom", False, d), ("atom", False, -d))
-            return ("or", ("atom", True, d), ("atom", True, -d))
-        v = self.rv(self.eval(n, env, fn))
-        if isinstance(v, Poly) and v.const_value() is not None:
-            return ("const", v.const_value() != 0)
-        raise NotClosedForm("condition %s is not a comparison formula" % (n.get("k"),))
+                return ("const", c != 0)
+            # a number used as a truth value: v != 0
+            return ("or", ("atom", True, v), ("atom", True, -v))
+        raise NotClosedForm("not a truth value: %r" % (v,))
 
     @staticmethod
-    def _const_return(n):
-        """True/False if statement n is `return <bool literal>` (possibly wrapped in a block), else None"""
-        while n is not None and n.get("k") == "Block" and len(n.get("s", [])) == 1:
-            n = n["s"][0]
-        if n is not None and n.get("k") == "Return" and (n.get("e") or {}).get("k") == "Bool":
-            return bool(n["e"]["v"])
-        return None
+    def _wrap(f):
+        return Poly.const(1 if f[1] else 0) if f[0] == "const" else BoolF(f)
 
-    def exec(self, n, env, fn):
-        if self.depth > 0:
-            return super().exec(n, env, fn)
-        if n is not None and n.get("k") == "If":
-            try:
-                c = self.truth(self.eval(n["c"], env, fn))
-            except NotClosedForm:
-                c = None
-            if c is None:
-                f = self.formula(n["c"], env, fn)
-                r = self._const_return(n.get("then"))
-                if r is False and n.get("else") is None:
-                    self.constraints.append(("not", f))
-                    return
-                raise NotClosedForm("branch on input data that is not an `if(...) return false;` early-out (line %s)" % n.get("l"))
-            if c:
-                return self.exec(n.get("then"), env, fn)
-            if n.get("else") is not None:
-                return self.exec(n["else"], env, fn)
-            return
-        if n is not None and n.get("k") == "Return" and n.get("e") is not None:
-            self.constraints.append(self.formula(n["e"], env, fn))
-            raise _Return(None)
-        return super().exec(n, env, fn)
+    def _expand_abs(self, strict, d):
+        """atom  d > 0 / d >= 0  with the |x| symbols of d eliminated:  e - k|x| > 0  =  e - kx > 0 and e + kx > 0 (k > 0),
+        e + k|x| > 0  =  e + kx > 0 or e - kx > 0"""
+        for nm in sorted(d.symbols()):
+            if nm in self.abs_args:
+                k = d.diff(nm).const_value()
+                if k is None or d.degree({nm}) != 1:
+                    raise NotClosedForm("absolute value occurs non-linearly in the comparison %s" % d)
+                x = self.abs_args[nm]
+                plus, minus = d.subs({nm: x}), d.subs({nm: -x})
+                a, b = self._expand_abs(strict, plus), self._expand_abs(strict, minus)
+                return ("and", a, b) if k < 0 else ("or", a, b)
+        c = d.const_value()
+        if c is not None:
+            return ("const", c > 0 if strict else c >= 0)
+        return ("atom", strict, d)
+
+    def compare(self, op, a, b):
+        d = b - a
+        if op == "<":
+            return self._expand_abs(True, d)
+        if op == "<=":
+            return self._expand_abs(False, d)
+        if op == ">":
+            return self._expand_abs(True, -d)
+        if op == ">=":
+            return self._expand_abs(False, -d)
+        if op == "==":
+            return self._and(self._expand_abs(False, d), self._expand_abs(False, -d))
+        return self._or(self._expand_abs(True, d), self._expand_abs(True, -d))
+
+    @staticmethod
+    def _and(a, b):
+        if a[0] == "const":
+            return b if a[1] else a
+        if b[0] == "const":
+            return a if b[1] else b
+        return ("and", a, b)
+
+    @staticmethod
+    def _or(a, b):
+        if a[0] == "const":
+            return a if a[1] else b
+        if b[0] == "const":
+            return b if b[1] else a
+        return ("or", a, b)
+
+    @staticmethod
+    def _not(a):
+        if a[0] == "const":
+            return ("const", not a[1])
+        if a[0] == "not":
+            return a[1]
+        return ("not", a)
+
+    # --- evaluation -----------------------------------------------------------------------------------
+    def binary(self, n, env, fn):
+        op = n["op"]
+        if op in ("&&", "||"):
+            # operands of a predicate are side-effect free: both sides as formulas (no path split)
+            a = self.as_formula(self.eval(n["lhs"], env, fn))
+            if a[0] == "const" and a[1] == (op == "||"):
+                return self._wrap(a)
+            b = self.as_formula(self.eval(n["rhs"], env, fn))
+            return self._wrap(self._and(a, b) if op == "&&" else self._or(a, b))
+        if op in ("<", ">", "<=", ">=", "==", "!=", "&", "|", "^"):
+            a0, b0 = self.eval(n["lhs"], env, fn), self.eval(n["rhs"], env, fn)
+            if self.ptr_of(a0) is None and self.ptr_of(b0) is None:
+                av, bv = self.rv(a0), self.rv(b0)
+                if isinstance(av, BoolF) or isinstance(bv, BoolF):
+                    fa, fb = self.as_formula(av), self.as_formula(bv)
+                    if op == "&":
+                        return self._wrap(self._and(fa, fb))
+                    if op == "|":
+                        return self._wrap(self._or(fa, fb))
+                    eq = self._or(self._and(fa, fb), self._and(self._not(fa), self._not(fb)))
+                    if op == "==":
+                        return self._wrap(eq)
+                    if op in ("!=", "^"):
+                        return self._wrap(self._not(eq))
+                    raise NotClosedForm("ordering comparison of truth values (line %s)" % n.get("l"))
+                if op in ("<", ">", "<=", ">=", "==", "!=") and isinstance(av, Poly) and isinstance(bv, Poly):
+                    return self._wrap(self.compare(op, av, bv))
+        return super().binary(n, env, fn)
+
+    def unary(self, n, env, fn):
+        if n["op"] == "!":
+            return self._wrap(self._not(self.as_formula(self.eval(n["e"], env, fn))))
+        return super().unary(n, env, fn)
+
+    def eval(self, n, env, fn):
+        k = n["k"]
+        if k == "Assign" and n.get("op") in ("&=", "|=", "^="):
+            lv = self.eval(n["lhs"], env, fn)
+            cur, r = self.rv(lv), self.rv(self.eval(n["rhs"], env, fn))
+            if isinstance(lv, Loc) and (isinstance(cur, BoolF) or isinstance(r, BoolF)):
+                fa, fb = self.as_formula(cur), self.as_formula(r)
+                if n["op"] == "&=":
+                    f = self._and(fa, fb)
+                elif n["op"] == "|=":
+                    f = self._or(fa, fb)
+                else:
+                    f = self._not(self._or(self._and(fa, fb), self._and(self._not(fa), self._not(fb))))
+                self.write(lv, self._wrap(f), n.get("l"))
+                return lv
+        if k == "Cond":
+            c = self.as_formula(self.eval(n["c"], env, fn))
+            if c[0] != "const":
+                # a ?: of two truth values is a formula; of anything else a path split
+                try:
+                    t = self.rv(self.eval(n["then"], env, fn))
+                    e = self.rv(self.eval(n["else"], env, fn))
+                    if all(isinstance(x, BoolF) or (isinstance(x, Poly) and x.const_value() in (0, 1)) for x in (t, e)) and any(isinstance(x, BoolF) for x in (t, e)):
+                        return self._wrap(self._or(self._and(c, self.as_formula(t)), self._and(self._not(c), self.as_formula(e))))
+                except NotClosedForm:
+                    pass
+                return self.eval(n["then"] if self.decide(c) else n["else"], env, fn)
+        return super().eval(n, env, fn)
+
+    def call(self, n, env, fn):
+        callee = n.get("callee", "")
+        if callee in ("FEAT::Math::abs", "std::abs", "std::fabs") and len(n.get("a", [])) == 1:
+            a = self.num(self.eval(n["a"][0], env, fn))
+            c = a.const_value()
+            if c is not None:
+                return Poly.const(abs(c))
+            for nm, x in self.abs_args.items():
+                if x == a or x == -a:
+                    return Poly.sym(nm)
+            nm = "ABS%d" % len(self.abs_args)
+            self.abs_args[nm] = a
+            return Poly.sym(nm)
+        return super().call(n, env, fn)
+
+    def decide(self, f):
+        i = len(self.taken)
+        d = self.decisions[i] if i < len(self.decisions) else True
+        self.taken.append(d)
+        if len(self.taken) > 64:
+            raise NotClosedForm("more than 64 data dependent branches on one path")
+        self.path.append(f if d else self._not(f))
+        return d
+
+    def truth(self, v):
+        v = self.rv(v)
+        if isinstance(v, BoolF):
+            return self.decide(v.f)
+        if isinstance(v, Poly) and v.const_value() is None:
+            return self.decide(self.as_formula(v))
+        return super().truth(v)
+
+
+class PredEx:
+    """Extracts the accepted set of a bool predicate over its inputs by enumerating its execution paths
+    (constant-bound loops unrolled; early returns, nested ifs, continue, ?:, bool locals and accumulators, helper
+    predicates inlined from the fact base, |x| comparisons): the accepted set is the union over the paths that do not
+    return false of (branch assumptions AND returned formula).  `atoms()` hands it out as a conjunction of atoms
+    L > 0 / L >= 0  (L a polynomial in the inputs); a predicate whose accepted set is not a single conjunction (several
+    accepting paths, disjunctive assumptions) is refused (NotClosedForm), never guessed."""
+
+    MAX_PATHS = 512
+
+    def __init__(self, facts_list, opaque=None):
+        self.facts_list = facts_list
+        self.opaque = opaque
+        self.accepting = []     # [(list of assumed formulas, returned formula)]
+        self.npaths = 0
+
+    def run(self, fn, args=None, this="this", prefix="P"):
+        todo = [[]]
+        self.accepting = []
+        self.npaths = 0
+        while todo:
+            dec = todo.pop()
+            px = _PathEx(self.facts_list, self.opaque, dec)
+            ret = px.run(fn, args=args, this=this, prefix=prefix)
+            self.npaths += 1
+            if self.npaths > self.MAX_PATHS:
+                raise NotClosedForm("more than %d execution paths" % self.MAX_PATHS)
+            for i in range(len(dec), len(px.taken)):
+                todo.append(px.taken[:i] + [False])
+            if ret is None:
+                raise NotClosedForm("a path of the predicate ends without returning a value")
+            f = px.as_formula(ret)
+            if f[0] == "const" and not f[1]:
+                continue
+            self.accepting.append((px.path, f))
+        return None
 
     def atoms(self):
         """accepted set as a list of (strict, Poly) atoms (conjunction); refuses disjunctions"""
+        if not self.accepting:
+            return [(False, Poly.const(-1))]        # nothing is accepted
+        if len(self.accepting) > 1:
+            raise NotClosedForm("the accepted set is a union of %d path sets, not a conjunction of inequalities" % len(self.accepting))
         out = []
 
         def nnf(f, neg):
@@ -1379,6 +1935,14 @@ class PredEx(SymEx):
                 collect(f[2])
                 return
             raise NotClosedForm("the accepted set is not a conjunction of inequalities")
-        for c in self.constraints:
+        path, ret = self.accepting[0]
+        for c in list(path) + [ret]:
             collect(nnf(c, False))
-        return out
+        # the same inequality assumed on several iterations / paths is one atom
+        seen, uniq = set(), []
+        for st, L in out:
+            key = (st, frozenset(L.t.items()))
+            if key not in seen:
+                seen.add(key)
+                uniq.append((st, L))
+        return uniq
